@@ -24,6 +24,10 @@ def programs(ctx, n_gen):
             p.yields = True; p.w["yield_"] = 3
         ast, src = gen.gen_program(random.Random(rng.getrandbits(48)), p)
         progs.append(("gen%d" % i, src, ["-fyield-support"] if yields else []))
+    # near-invalid programs: loops and handlers with non-consuming paths (most must be rejected)
+    for i in range(n_gen * 2):
+        ast, src = gen.gen_spin_candidate(random.Random(rng.getrandbits(48)))
+        progs.append(("spin%d" % i, src, []))
     return progs
 
 
